@@ -1,20 +1,20 @@
 (* The concrete instances used by the executable model satisfy the hypotheses of the general theorems:
-   the fixed-size chunker, the sorted listing function, Unix link-text normalisation. *)
+   the growing chunker, the sorted listing function, Unix link-text normalisation. *)
 From RJ Require Import Base.Prelude Base.OrderedPlan Model.Settings Model.Core Model.Fs Model.Paths Model.Sync Model.SyncTop
   Spec.PlanSpec Spec.Mirror Proofs.PlanCProofs Proofs.FsProofs Proofs.PathsProofs Proofs.PathLemmas Proofs.ExecProofs Proofs.MirrorProofs
   Proofs.QuietProofs Proofs.ConfinedMain.
 
 (* ---- chunker ---- *)
-Lemma chunk_fuel_ok fuel : forall n s, chunk_fuel fuel n s <> [] /\ concat (chunk_fuel fuel n s) = s.
+Lemma chunk_grow_ok fuel : forall k s, chunk_grow fuel k s <> [] /\ concat (chunk_grow fuel k s) = s.
 Proof.
-  induction fuel as [|fuel IH]; intros n s; cbn [chunk_fuel].
+  induction fuel as [|fuel IH]; intros k s; cbn [chunk_grow].
   - split; [discriminate|]. cbn. apply app_nil_r.
-  - destruct (Nat.leb (length s) n).
+  - destruct (Nat.leb (length s) (buf_size k)).
     + split; [discriminate|]. cbn. apply app_nil_r.
-    + split; [discriminate|]. cbn [concat]. destruct (IH n (skipn n s)) as [_ ->]. apply firstn_skipn.
+    + split; [discriminate|]. cbn [concat]. destruct (IH (S k) (skipn (buf_size k) s)) as [_ ->]. apply firstn_skipn.
 Qed.
-Theorem chunk_every_ok n d : chunk_every n d <> [] /\ concat (chunk_every n d) = d.
-Proof. apply chunk_fuel_ok. Qed.
+Theorem chunk_real_ok d : chunk_real d <> [] /\ concat (chunk_real d) = d.
+Proof. apply chunk_grow_ok. Qed.
 
 (* ---- the sorted listing is a valid listing ---- *)
 Definition unique_keys (f : fs) : Prop := NoDup (map fst f).
@@ -172,8 +172,8 @@ Theorem run_top_mirror cfg S D a ans bits ex ft :
   mirror now_far (excl_incl ex) normalize_unix (cf_diff cfg) Unix S D (d_fs (r_dest r)).
 Proof.
   intros HuS HwS HuD HwD Hts Hlk. cbv zeta. unfold run_top. intros Hok Hsk Hrs Hdry Hnt Hfl.
-  exact (mirror_theorem now_far (excl_incl ex) normalize_unix (chunk_every 4096) (chunk_every_ok 4096) Unix
-           cfg S (mkD D a 0 None []) ans bits _ _ ft
+  exact (mirror_theorem now_far (excl_incl ex) normalize_unix chunk_real chunk_real_ok Unix
+           cfg S (world D a []) ans bits _ _ ft
            (list_fs_valid now_far (excl_incl ex) normalize_unix S HuS HwS)
            (list_fs_valid now_far (excl_incl ex) normalize_unix D HuD HwD)
            HwS Hts (links_utf8_roundtrip S Hlk) eq_refl Hok Hsk Hrs Hdry Hnt Hfl).
@@ -187,8 +187,8 @@ Theorem run_top_confined cfg S D a ans bits ex ft :
   no_through (d_events (r_dest r)).
 Proof.
   intros HuS HwS HuD HwD. cbv zeta. unfold run_top. intros Hok Hsk Hrs Hdry.
-  exact (clean_run_confined now_far (excl_incl ex) normalize_unix (chunk_every 4096) (chunk_every_ok 4096)
-           cfg S (mkD D a 0 None []) ans bits _ _ ft
+  exact (clean_run_confined now_far (excl_incl ex) normalize_unix chunk_real chunk_real_ok
+           cfg S (world D a []) ans bits _ _ ft
            (list_fs_valid now_far (excl_incl ex) normalize_unix S HuS HwS)
            (list_fs_valid now_far (excl_incl ex) normalize_unix D HuD HwD)
            (list_fs_parents_first now_far (excl_incl ex) normalize_unix S)
